@@ -10,6 +10,9 @@ LEVEL_TEXT = ("static: decides on every path that (a) the server order is never 
               "index drawn within the leading run of equal failure counts; (c) every failure/timeout path bumps the failure count before the retry "
               "decision and only a gated answer restores a server; (d) probes are separate requests with no cache, no retries and an internal "
               "callback, sent only after the user's query was enqueued. Does not decide distributional claims or behaviour over histories.")
+# fifth-round additions
+TECHNIQUE += "; " + "must-pass-through (claim before the indirect destructor call) in the skip list's node_destroy"
+LEVEL_TEXT += " " + '(UNLINKFIRST) a server is off channel->servers before its destructor re-sends its in-flight queries.'
 LEVEL_NOTE = "trusts clang CFG + extractor and the skip list's correctness (C19)"
 DESIGN_REF = "DESIGN.md §6/C09"
 EXPLANATION = LEVEL_TEXT
